@@ -737,6 +737,50 @@ PROPS["C22"]["assumptions"] = PROPS["C22"]["assumptions"] + [
     "shim: verif_vec_retain (std documentation, through the predicate's contract), verif_print_module (ghost trace); assume_specification of <[T]>::contains",
 ]
 
+# ---- C10 (unit exprsubst, round 3) -- PARTIAL -------------------------------------------------------------------------
+TWINS["exprsubst"] = [("substitute_", "c10.subst"), ("unpack_", "c10.subst"), ("", "c10.subst")]
+PROPS["C10"] = {
+    "units": ["exprsubst"],
+    "level_text": (
+        "PARTIAL: the expression-level core of the optimizing normalization. All ten functions of intermediate_representation/expression/"
+        "trivial_operation_substitution.rs (Expression::substitute_trivial_operations, recursive over the expression tree, and its helpers substitute_trivial_binops, "
+        "substitute_binop_for_lhs_equal_rhs, substitute_and_xor_or_with_constant, substitute_equivalent_comparison_ops, substitute_complicated_a_less_than_b, "
+        "substitute_arithmetics_with_constants, the two unpack_* matchers) are extracted verbatim from /repo on each run and verified by Verus: for EVERY well-sized "
+        "expression (trees of any depth, all widths) the rewritten expression is well-sized, has the same byte size, and has, under every valuation of its variables "
+        "under which the original has a P-Code value, the SAME value (P-Code oracle of C01 over mathematical integers); every panic! / unreachable! / unwrap site is "
+        "proved unreachable. This is the statement 'every read of the rewritten expression yields what the original yielded' -- the per-expression part of "
+        "'the optimized program behaves like the unoptimized one'."),
+    "level_note": (
+        "On the pinned tree this postcondition FAILED for one arm: `1 == x - y` was rewritten to `x != y` (8 bit, x = 3, y = 1) -- repaired (fix: e127fe6, "
+        "known_findings.txt); with the guard reduced to is_zero() the function verifies, and 59 million random trees of the bounded twin c10.subst showed no "
+        "other class. NOT decided (the larger part of C10): the other four optimizing passes (expression propagation, dead variable elimination, control flow "
+        "propagation, stack alignment substitution), Project::substitute_trivial_expressions (the loop applying the rewriter to every Def and Jmp), and the link from "
+        "'same value per expression' to C10's observables (memory accesses, call sequence, register state at exits): there is no program semantics behind this "
+        "unit. The size clause is this rewriter's share of C12 (preservation, not establishment); C12 is not claimed. Boolean operations are read as P-Code defines "
+        "them (operands 0 / 1): `x BoolAnd 1 -> x` is value-preserving only for boolean x. Trusted: restated derives (Clone / PartialEq of Expression and the "
+        "operation enums, Box equality compares contents), five R9 substitutions forced by bisected Verus limitations (`= self {` -> `= &*self {`: rustc inside "
+        "Verus panics only for a binding named lhs taken by &mut from the scrutinee self; or-patterns with a guard split per alternative; `*self = E` in guarded arms "
+        "-> `verif_new = Some(E)` with one assignment after the match, right-hand sides verbatim; unreachable!/panic! -> requires-false call), the assumptions of unit "
+        "bitvector (apint shim)."),
+    "design_ref": "DESIGN.md section 13 (C10)",
+    "default_twins": ["c10.subst"],
+    "sweep_twins": ["c10.subst"],
+    "not_covered": [
+        "expression propagation, dead variable elimination, control flow propagation, stack alignment substitution (four of the five optimizing passes)",
+        "Project::substitute_trivial_expressions (the loop over all Defs and Jmps) and the calls of the rewriter from expression_propagation",
+        "the link from per-expression value preservation to the property's observables (no program semantics in this unit)",
+        "that the program's expressions are well-sized before the rewrite; Def / Jmp level sizing (C12)",
+        "values of float operations and Unknown (only the size clauses hold for them)",
+    ],
+    "assumptions": [
+        "shim/exprsubst.rs: Expression::clone / eq restated (structural), axiom_es_box_eq, PartialEqSpecImpl of BinOpType / CastOpType / UnOpType, es_unreachable requires false",
+        "R9 substitutions S1-S5 of contracts/exprsubst.vc (right-hand sides verbatim)",
+        "HYPOTHESIS es_wf of the input expression (P-Code sizing rules; sizes <= 32 MiB)",
+        "everything assumed by unit bitvector (apint contracts, derives, R5)",
+        "64-bit target (usize = u64)",
+    ],
+}
+
 
 def twin_for(unit, label):
     for frag, twin in TWINS.get(unit, []):
